@@ -11,7 +11,7 @@ FILE = "magicbot/magicrobot.py"
 PROPS = ["C05", "C06", "C07", "C10", "C11"]
 MR, COMP = "MagicRobot", "Component"
 
-GLOBALS = {"g_seq": "Int", "g_fms": "Bool", "g_faults": "Int", "g_reports": "Int", "g_robot_init_failed": "Bool", "g_sim": "Bool"}
+GLOBALS = {"g_seq": "Int", "g_fms": "Bool", "g_faults": "Int", "g_reports": "Int", "g_robot_init_failed": "Bool", "g_sim": "Bool", "g_sim_before": "Int", "g_sim_after": "Int"}
 
 MACROS = {
     "COMPS(r)": "r._components",
@@ -36,7 +36,9 @@ CLASSES = {
     "NtStrSetter": {"fields": {"g_value": "Str", "entry": "Ref:RNTEntry"}, "callable_of": {"method": "RNTEntry.setString", "link": "entry"}},
     "NtBoolSetter": {"fields": {"g_bvalue": "Bool", "entry": "Ref:RNTEntry"}, "callable_of": {"method": "RNTEntry.setBoolean", "link": "entry"}},
     "BoolFn": {"fields": {"entry": "Ref:RNTEntry"}, "callable_of": {"dotted": ["wpilib.DriverStation.isDSAttached"], "link": "entry"}},
+    "RobotBase": {"fields": {}},
     MR: {
+        "bases": ["RobotBase"],
         "fields": {
             "_components": f"Seq[(Str,Ref:{COMP})]", "_feedbacks": "Seq[(Ref:FbGetter,Ref:FbSetter)]",
             "_reset_components": f"Seq[(Ref:ResetDict,Ref:{COMP})]", "_MagicRobot__periodics": "Seq[(Ref:Periodic,Str)]",
@@ -44,7 +46,7 @@ CLASSES = {
             "error_report_interval": "Real", "control_loop_wait_time": "Real", "use_teleop_in_autonomous": "Bool",
             "_automodes": "Ref:AutonomousModeSelector", "_MagicRobot__nt_put_mode": "Ref:NtStrSetter",
             "_MagicRobot__nt_put_is_ds_attached": "Ref:NtBoolSetter", "_MagicRobot__is_ds_attached": "Ref:BoolFn",
-            "_MagicRobot__sd_update": "py", "_MagicRobot__lv_update": "py", "_MagicRobot__nt": "Ref:RNTTable",
+            "_MagicRobot__sd_update": "py", "_MagicRobot__lv_update": "py", "_MagicRobot__nt": "Ref:RNTTable", "_exclude_from_injection": "Seq[Str]",
             "g_mode_cnt": "Int", "g_mode_last": "Int", "g_init_cnt": "Int", "g_init_last": "Int", "g_ep_cnt": "Int", "g_dp_cnt": "Int",
         },
         "alias": {"comps": "COMPS(self)", "fbs": "FBS(self)", "pers": "PERS(self)", "rsts": "RSTS(self)"},
@@ -408,6 +410,32 @@ CONTRACTS.update({
     "MagicRobot.getControlState": {"kind": "external", "receivers": [MR], "params": {}, "returns": "(Bool,Bool,Bool)", "modifies": ["g_ds_enabled", "g_ds_auto", "g_ds_test"],
                                    "ensures": {"the driver station's current (enabled, autonomous, test) flags": "result[0] == g_ds_enabled and result[1] == g_ds_auto and result[2] == g_ds_test"},
                                    "note": "wpilib.RobotBase.getControlState(): refreshes and returns the control word (arbitrary input)"},
+    "robot.with_block": {"kind": "callback", "params": {}, "raises": True, "modifies": ["g_faults", "g_seq"] + _USER, "ensures": dict({"serial monotone": "g_seq >= old(g_seq)"}, **_NORMAL),
+                         "ensures_raise": dict({"serial monotone": "g_seq >= old(g_seq)"}, **_RAISE), "note": "the user's with-block running at the bare `yield` of consumeExceptions (a @contextmanager generator)"},
+    f"{MR}.consumeExceptions": {
+        "receivers": [MR], "params": {"forceReport": "Bool"}, "defaults": {"forceReport": False}, "raises": True,
+        "modifies": ["g_faults", "g_seq", "g_time", "g_reports", f"{MR}._MagicRobot__last_error_report[*]"] + _USER,
+        "ensures": dict({"C07.X2 (user-facing helper, same policy) with consumeExceptions(): an exception of the block is consumed only with the FMS attached": "implies(not g_fms, g_faults == old(g_faults))"}),
+        "ensures_raise": {"C07.X1 (user-facing helper, same policy) an exception of the with-block leaves consumeExceptions() only without the FMS": "not g_fms"},
+    },
+    f"{MR}._MagicRobot__simulationPeriodic#body": {
+        "source": f"{MR}.__simulationPeriodic", "receivers": [MR], "params": {}, "raises": True, "modifies": ["g_faults", "g_seq", "g_sim_before", "g_sim_after"] + _USER,
+        "ensures": {"C05.N3 the simulation periodic brackets the user's _simulationPeriodic() with hal.simPeriodicBefore / hal.simPeriodicAfter": "g_sim_before == old(g_sim_before) + 1 and g_sim_after == old(g_sim_after) + 1"},
+        "ensures_raise": {"only the user hook raises (after simPeriodicBefore)": "g_sim_before == old(g_sim_before) + 1 and g_sim_after == old(g_sim_after)"},
+    },
+    "hal.simPeriodicBefore": {"kind": "external", "params": {}, "modifies": ["g_sim_before"], "ensures": {"counted": "g_sim_before == old(g_sim_before) + 1"}, "note": "hal"},
+    "hal.simPeriodicAfter": {"kind": "external", "params": {}, "modifies": ["g_sim_after"], "ensures": {"counted": "g_sim_after == old(g_sim_after) + 1"}, "note": "hal"},
+    f"{MR}._simulationPeriodic": {"kind": "callback", "params": {}, "raises": True, "modifies": ["g_faults", "g_seq"] + _USER, "ensures": {}, "note": "user-overridable hook (pyfrc physics)"},
+    "hal.report": {"kind": "external", "params": {"resource": "py", "instance": "py"}, "ensures": {}, "note": "hal usage reporting"},
+    "RobotBase.__init__": {"kind": "external", "receivers": ["RobotBase"], "params": {}, "modifies": [], "ensures": {}, "note": "wpilib.RobotBase constructor"},
+    f"{MR}.__init__": {
+        "receivers": [MR], "ctor": True, "no_wf": True, "params": {},
+        "modifies": ["self._exclude_from_injection", "self._MagicRobot__last_error_report", "self._components", "self._feedbacks", "self._reset_components", "self._MagicRobot__done",
+                     "self._MagicRobot__is_ds_attached", "BoolFn.entry[*]"],
+        "ensures": {"C06.Z0 a new robot has no components, feedbacks or reset entries yet, the mode loop's exit flag is down, only 'logger' is excluded from injection and the first error report is not rate-limited":
+                    "len(comps) == 0 and len(fbs) == 0 and len(rsts) == 0 and not self._MagicRobot__done and len(self._exclude_from_injection) == 1 and self._exclude_from_injection[0] == 'logger' and "
+                    "self._MagicRobot__last_error_report == -10 and self._MagicRobot__is_ds_attached is not None"},
+    },
     # --- what robotInit calls
     f"{MR}.createObjects": {"kind": "callback", "params": {}, "raises": True, "modifies": ["g_faults"] + _USER, "ensures": _NORMAL, "ensures_raise": _RAISE, "note": "user code: creates the robot's wpilib objects"},
     f"{MR}._simulationInit": {"kind": "callback", "params": {}, "modifies": _USER, "ensures": {}, "note": "user-overridable hook (pyfrc)"},
@@ -478,6 +506,7 @@ for _fn, _cond, _txt in (("_disabled", "not L_isEnabled", "the disabled loop is 
         f"C05.M1 (also C06: each mode function brackets its loop with on_enable/on_disable of every component) {_txt}": _cond + " and L_isEnabled == g_ds_enabled and L_isAutonomous == g_ds_auto and L_isTest == g_ds_test"}
 
 DYN_GETATTR = {"__dict__.update": "robot.dict_update"}
+YIELD_EVENTS = {f"{MR}.consumeExceptions": "robot.with_block"}
 NAMES = {"NotifierDelay": ("dotted", "NotifierDelay"), "SimpleWatchdog": ("dotted", "SimpleWatchdog"), "AutonomousModeSelector": ("dotted", "AutonomousModeSelector")}
 
 ASSUMPTIONS = [
